@@ -3,7 +3,7 @@
 From Coq Require Import String List NArith Bool.
 From J5V.model Require Import Conc ConcSites ConcCorr.
 From J5V.gen Require ConcGen.
-From J5V.proofs Require Import ConcProofs.
+From J5V.proofs Require Import ConcProofs ConcInvProofs ConcTermProofs ConcMainProofs.
 Import ListNotations.
 Local Open Scope N_scope.
 
@@ -23,6 +23,80 @@ Print Assumptions C10_cache_methods_agree.
 Theorem C10_placeholder_functions_agree : ConcGen.placeholder_functions = expected_placeholder_functions.
 Proof. exact placeholder_functions_agree. Qed.
 Print Assumptions C10_placeholder_functions_agree.
+
+(* ---- the guarded discipline: for ALL type universes (cyclic or not), ALL lists of
+   calls per thread, ANY number of threads and ALL schedules ------------------------ *)
+
+(* (1) every completed call returned what it returns when run alone on a fresh cache;
+   a thread's results are, in order, the solo results of a prefix of its calls *)
+Theorem C10_guarded_results : forall k g calls sched t,
+  exists j, nth t (results (run Guarded k g calls sched)) [] =
+            map (result_solo k g) (firstn j (nth t calls [])).
+Proof. exact guarded_results. Qed.
+Print Assumptions C10_guarded_results.
+
+(* result_solo is by definition the unfolding of the type universe; it is also what the
+   machine returns for a call made alone on a fresh cache *)
+Theorem C10_solo_is_solo : forall k g n,
+  results (run Guarded k g [[n]] (repeat 0%nat (fuel_bound g [[n]]))) = [[result_solo k g n]].
+Proof. exact solo_is_solo. Qed.
+Print Assumptions C10_solo_is_solo.
+
+(* (2a) no deadlock: while a call is outstanding some thread can take a step that changes the state *)
+Theorem C10_guarded_no_deadlock : forall k g calls sched,
+  all_done (run Guarded k g calls sched) = false ->
+  exists t, (t < length calls)%nat /\ can_step (run Guarded k g calls sched) t /\
+            gstep Guarded k g t (run Guarded k g calls sched) <> run Guarded k g calls sched.
+Proof. exact guarded_progress. Qed.
+Print Assumptions C10_guarded_no_deadlock.
+
+(* (2b) every fair schedule (rounds in each of which every thread is scheduled at least
+   once) of fuel_bound = sum over the universe of (2*|refs|+3) + 3*|calls| rounds
+   completes every call, each with its solo result *)
+Theorem C10_guarded_fair_complete : forall k g calls rounds,
+  Forall (covers (length calls)) rounds -> (fuel_bound g calls <= length rounds)%nat ->
+  all_done (run Guarded k g calls (concat rounds)) = true /\
+  results (run Guarded k g calls (concat rounds)) = map (map (result_solo k g)) calls.
+Proof. exact guarded_fair_complete. Qed.
+Print Assumptions C10_guarded_fair_complete.
+
+(* (3) whenever the lock is free every cache entry is fully linked and denotes its type:
+   no placeholder with To == nil is visible outside a critical section *)
+Theorem C10_guarded_linked_when_free : forall k g calls sched,
+  let st := run Guarded k g calls sched in
+  s_lock st = None ->
+  forall n c, lookup (cmap (s_sh st)) n = Some c ->
+    (exists fs, cell_to (s_sh st) c = Some fs) /\
+    forall d, unfold d (heap (s_sh st)) c = gunfold d g n.
+Proof. exact guarded_linked_when_free. Qed.
+Print Assumptions C10_guarded_linked_when_free.
+
+(* mutual exclusion of the section between cache.lookup and the return *)
+Theorem C10_guarded_mutex : forall k g calls sched t1 t2 th1 th2,
+  let st := run Guarded k g calls sched in
+  nth_error (s_thr st) t1 = Some th1 -> nth_error (s_thr st) t2 = Some th2 ->
+  ~ outside (t_pc th1) -> ~ outside (t_pc th2) -> t1 = t2.
+Proof. exact guarded_mutex. Qed.
+Print Assumptions C10_guarded_mutex.
+
+(* non-vacuity: a cyclic universe (0 -> 1 -> {0, 2}), three threads, a fair schedule *)
+Example C10_guarded_example :
+  let g : graph := [(0, [1]); (1, [0; 2]); (2, [])] in
+  let calls : list (list name) := [[0; 2]; [1]; [2; 0]] in
+  let rounds := repeat [2; 0; 1; 1]%nat (fuel_bound g calls) in
+  Forall (covers (length calls)) rounds /\ fuel_bound g calls = 30%nat /\
+  results (run Guarded 2 g calls (concat rounds)) =
+    [[ROk (UNode 0 [UNode 1 [UCut 0; UCut 2]]); ROk (UNode 2 [])];
+     [ROk (UNode 1 [UNode 0 [UCut 1]; UNode 2 []])];
+     [ROk (UNode 2 []); ROk (UNode 0 [UNode 1 [UCut 0; UCut 2]])]] /\
+  (* a schedule on which thread 1 has to wait for the lock *)
+  snd (run_trace Guarded 2 g calls [0; 0; 1; 1; 2; 0]%nat) = [2; 3; 1; 1; 1; 4].
+Proof.
+  cbv zeta. split; [|split; [|split]]; try (vm_compute; reflexivity).
+  apply Forall_forall. intros r Hr. apply repeat_spec in Hr. subst r.
+  intros t Ht. cbn in Ht.
+  destruct t as [|[|[|t]]]; cbn; try tauto. exfalso. Lia.lia.
+Qed.
 
 (* ---- without the lock the property fails ----------------------------------- *)
 Theorem C10_unguarded_refuted :
